@@ -20,6 +20,7 @@ pub fn generate(stream: &str, seed: u64, n: usize, emit: &mut dyn FnMut(String))
 		"reuse" => ser::generate_reuse(seed, n, emit),
 		"perm" => ser::generate_perm(seed, n, emit),
 		"c11" => de::generate_c11(seed, n, emit),
+		"skip" => de::generate_skip(seed, n, emit),
 		"de-alloc" => de::generate_alloc(seed, n, emit),
 		"ocfw" | "ocfw-sink" => ocf::generate_w(stream, seed, n, emit),
 		"ocfr" | "ocfr-null" | "ocfr-damage" | "ocfd" => ocf::generate_r(stream, seed, n, emit),
@@ -42,6 +43,7 @@ pub fn run_line(line: &str) -> String {
 		"perm" => ser::run_perm(line),
 		"de" => de::run(line),
 		"c11" => de::run_c11(line),
+		"skip" => de::run_skip(line),
 		"dealloc" => de::run_alloc(line),
 		"ocfw" => ocf::run_w(line),
 		"ocfr" | "ocfd" => ocf::run_r(line),
